@@ -109,10 +109,12 @@ class LinearConstraintsConfig(ImmutableBaseModel):
             )
             values = self.model_dump(round_trip=True)
             values.update(
-                coefficients=coefficients,
-                lower_bounds=lower_bounds,
-                upper_bounds=upper_bounds,
+                coefficients=immutable_array(coefficients),
+                lower_bounds=immutable_array(lower_bounds),
+                upper_bounds=immutable_array(upper_bounds),
             )
-            return LinearConstraintsConfig.model_construct(**values)
+            transformed = LinearConstraintsConfig.model_construct(**values)
+            transformed._immutable()  # noqa: SLF001
+            return transformed
 
         return self
